@@ -152,7 +152,11 @@ def scan_exhaustion_problem(fn):
     tried (pigeonhole).  Count the candidates (range length plus single candidates tested before the loop) as a polynomial
     in L = len(P) and require count >= L + 1.  Returns a description of the problem or None (also None when the loop is not
     of this shape)."""
+    from sa.desugar import desugar as _ds
     from sa.poly import Poly, of_expr
+
+    if isinstance(fn, (ast.FunctionDef, ast.AsyncFunctionDef)):
+        fn = _ds(fn)  # counting while-loops become range loops
 
     def L(e):
         import copy
@@ -203,10 +207,21 @@ def scan_exhaustion_problem(fn):
 
 
 def idiom_len_plus_one(fn):
+    from sa import paths as P_
+    from sa.poly import Poly, of_expr
+
+    val = P_.value_aliases(fn)
+    env = {}
+    for k, v in val.items():
+        if isinstance(v, ast.Call) and dotted(v.func) == "len":
+            env[k] = Poly.sym("len(%s)" % P_.full(v.args[0], val)) if v.args else None
+    env = {k: v for k, v in env.items() if v is not None}
     for n in ast.walk(fn):
-        if isinstance(n, ast.BinOp) and isinstance(n.op, ast.Add) and isinstance(n.right, ast.Constant) and n.right.value == 1 \
-                and isinstance(n.left, ast.Call) and dotted(n.left.func) == "len":
-            return "len(P)+1 (sound only under the naming discipline R6.3)"
+        if isinstance(n, ast.BinOp) and isinstance(n.op, ast.Add):
+            p = of_expr(n, env)
+            syms = [k for k in p.t if k != ()]
+            if len(syms) == 1 and len(syms[0]) == 1 and syms[0][0].startswith("len(") and p.t[syms[0]] == 1 and p.t.get((), 0) == 1:
+                return "len(P)+1 (sound only under the naming discipline R6.3)"
     return None
 
 
@@ -231,6 +246,13 @@ def fresh_expr(e, fn, par, depth=0):
         return False
     if isinstance(e, ast.BinOp) and isinstance(e.op, ast.Add) and isinstance(e.right, ast.Constant) and e.right.value == 1:
         return True
+    if isinstance(e, (ast.JoinedStr, ast.BinOp)) or (isinstance(e, ast.Call) and isinstance(e.func, ast.Attribute) and e.func.attr == "format"):
+        # a name built from a template is fresh when one of the values formatted into it is
+        from sa.strtpl import holes, template_of
+
+        t = template_of(e)
+        if t is not None and holes(t):
+            return any(fresh_expr(h.expr, fn, par, depth + 1) for h in holes(t))
     if isinstance(e, ast.BinOp) and isinstance(e.op, ast.Mod):
         args = e.right.elts if isinstance(e.right, ast.Tuple) else [e.right]
         return any(fresh_expr(a, fn, par, depth + 1) for a in args)
@@ -313,7 +335,7 @@ ALLOCATORS = [
     ("pptx.opc.package", "OpcPackage.next_partname", ["self.iter_parts()"], []),
     ("pptx.package", "Package.next_image_partname", ["self.iter_parts()"], []),
     ("pptx.package", "Package.next_media_partname", ["self.iter_parts()"], []),
-    ("pptx.parts.presentation", "PresentationPart._next_slide_partname", ["get_or_add_sldIdLst()", "len(sldIdLst)"], []),
+    ("pptx.parts.presentation", "PresentationPart._next_slide_partname", ["get_or_add_sldIdLst()", ("len-of", "get_or_add_sldIdLst()")], []),
     ("pptx.oxml.slide", "CT_TimeNodeList._next_cTn_id", ["'/p:sld/p:timing//p:cTn/@id'"], []),
     ("pptx.oxml.chart.chart", "CT_PlotArea.next_idx", ["self.sers"], []),
     ("pptx.oxml.chart.chart", "CT_PlotArea.next_order", ["self.sers"], []),
@@ -366,12 +388,24 @@ def run(ctx):
             idi += [r for r in (fn(g.node) for fn in IDIOMS) if r]
         if q.endswith(".max_shape_id") and any(isinstance(n, ast.Call) and dotted(n.func) == "max" for g in reach for n in ast.walk(g.node)):
             idi = ["population maximum (consumed by _next_shape_id as max+1)"]
-        miss = [m for m in must if m not in src]
+        def _has(m):
+            if isinstance(m, str):
+                return m in src
+            # ("len-of", suffix): some len(X) where X, with single-assignment locals substituted, is a call ending in suffix
+            from sa import paths as P_
+            for g in reach:
+                val = P_.value_aliases(g.node)
+                for c in ast.walk(g.node):
+                    if isinstance(c, ast.Call) and dotted(c.func) == "len" and c.args and P_.full(c.args[0], val).endswith(m[1]):
+                        return True
+            return False
+
+        miss = [m for m in must if not _has(m)]
         bad = [x for x in forbid if x in src]
         key = q
         exh = next((x for x in (scan_exhaustion_problem(g.node) for g in reach) if x), None)
         gap = next((x for x in (gap_scan_problem(g.node) for g in reach) if x), None)
-        stale = [] if q.endswith(".max_shape_id") else _stale_returns(f)
+        stale = [] if q.endswith(".max_shape_id") else _stale_returns(f, prog)
         if miss or bad:
             ctx.violation("R6.2", key + ":population", "allocator does not draw from the whole population (missing %s%s)" % (
                 miss, (", found narrowing " + str(bad)) if bad else ""), file=f.file, line=f.line)
@@ -503,11 +537,12 @@ def run(ctx):
                 ctor.append((g, c))
     okc = len(ctor) == 1 and ctor[0][0].qualname == "Presentation.slides"
     if okc:
-        g, c = ctor[0]
-        ren = [n for n in walk_own(g.node) if isinstance(n, ast.Call) and isinstance(n.func, ast.Attribute)
-               and n.func.attr == "rename_slide_parts"]
-        okc = bool(ren) and ren[0].lineno < c.lineno and isinstance(c.args[0], ast.Name) and any(
-            isinstance(x, ast.Name) and x.id == c.args[0].id for x in ast.walk(ren[0]))
+        from checks.c16 import slides_rename_facts
+
+        sf = slides_rename_facts(prog)
+        if not sf["recognised"]:
+            ctx.error("Presentation.slides", "the rename_slide_parts / Slides(...) pair is not recognised")
+        okc = sf["before"] and sf["same_list"]
     if okc:
         ctx.ok("R6.3", "Slides construction", sample={"site": "Presentation.slides", "order": "rename_slide_parts(sldIdLst) then Slides(sldIdLst)"})
     else:
@@ -556,12 +591,17 @@ def run(ctx):
     ctx.ok("R6.5", "image/media siblings", nontrivial=False)
 
 
-def _stale_returns(f):
-    par = _parents(f.node)
-    out = []
-    for r in walk_own(f.node):
-        if isinstance(r, ast.Return) and r.value is not None and not _fresh_return(r, f.node, par):
-            out.append(r)
+def _stale_returns(f, prog=None):
+    def stale(node):
+        par = _parents(node)
+        return [r for r in walk_own(node) if isinstance(r, ast.Return) and r.value is not None and not _fresh_return(r, node, par)]
+
+    out = stale(f.node)
+    if out and prog is not None:
+        # judge the canonical form (helpers of the module inlined: the freshness may come from an argument)
+        from sa.inline import expand
+
+        out = stale(expand(prog, f, local_only=True))
     return out
 
 
